@@ -143,6 +143,7 @@ func init() {
 			c.Clause("C02-D1")
 			ruleCodeTable(c, d)
 			ruleEnvelopeErrorOnlyFromJSON(c)
+			ruleMixedFieldsRejected(c)
 			c.Clause("C02-D2")
 			ruleInvalidNeverRuns(c, d)
 			ruleInvokeSites(c, d)
@@ -219,6 +220,7 @@ func init() {
 			ruleResultOnlyWithoutError(c, d)
 			c.Clause("C14-D5")
 			ruleClientErrorMapping(c)
+			ruleResultErrorFirst(c)
 			ruleCallbackMarshalErrorReported(c)
 			ruleEveryPeerErrorFiltered(c)
 			ruleWatcherReportsCtxErr(c, "client")
